@@ -60,8 +60,8 @@ Fixpoint phase_scan {cap} (pushes pops : list nat) (h : history (BPQueue cap)) :
 Definition no_push_pop_overlap {cap} (h : history (BPQueue cap)) : bool := phase_scan [] [] h.
 
 Definition mspq_phase_linearizable_statement : Prop :=
-  forall cap, slots_ok cap = true -> shape_ok cap = true ->
-  forall hf lf ths c, Conc.reach (init_cfg cap hf lf ths) c ->
+  forall cap, slots_ok cap = true -> shape_ok cap = true -> forall bsz, cap < bsz ->
+  forall hf lf ths c, Conc.reach (init_cfg cap bsz hf lf ths) c ->
     no_push_pop_overlap (hist_of cap (Conc.trace c)) = true ->
     linearizable (BPQueue cap) (hist_of cap (Conc.trace c)).
 
@@ -177,12 +177,12 @@ Proof.
 Qed.
 
 Theorem mspq_phase_linearizable_partial cap :
-  slots_ok cap = true -> shape_ok cap = true ->
-  forall hf lf os c, Conc.reach (init_cfg cap hf lf [os]) c ->
+  slots_ok cap = true -> shape_ok cap = true -> forall bsz, cap < bsz ->
+  forall hf lf os c, Conc.reach (init_cfg cap bsz hf lf [os]) c ->
     linearizable (BPQueue cap) (hist_of cap (Conc.trace c)).
 Proof.
-  intros OK SH hf lf os c Hr.
-  destruct (mspq_sequential_refines cap OK SH hf lf os c Hr) as [fut Hfut].
+  intros OK SH bsz Hbsz hf lf os c Hr.
+  destruct (mspq_sequential_refines cap OK SH bsz Hbsz hf lf os c Hr) as [fut Hfut].
   destruct (single_thread_tids _ _ Hr eq_refl ltac:(intros te [])) as [_ Htid].
   rewrite (hist_of_thread0 cap _ Htid). eapply spec_prefix_linearizable. exact Hfut.
 Qed.
